@@ -24,7 +24,7 @@
    them into an alternation (positive) / a sequence (negative) of look-behinds, and the reference
    semantics reads them the same way (Oniguruma's reading). *)
 From FR Require Import Base State Utf8 Utf8Facts Chars Ast Analyze Sem SemSound SemK Det Vm Compile
-                       Machine Atomize CompileCorrect RunCorrect EndToEnd Scope ScopeProofs.
+                       Machine Param Atomize ArrowA CompileCorrect RunCorrect EndToEnd Scope ScopeProofs.
 From Coq Require Import NArith Lia.
 
 (* Whatever the stack bound, the backtrack limit and the step budget: the VM reports a match only
@@ -49,6 +49,37 @@ Theorem C01_vm_follows_reference :
   | _ => True
   end.
 Proof. exact vm_agrees_with_reference. Qed.
+
+
+(* THE END-TO-END STATEMENT (stages 1-3 assembled).  EVERY program the compiler emits, whatever
+   it interprets itself and whatever it hands to the automata engine (a Delegate instruction runs
+   the reference semantics of its block and takes the first result: Proofs/DelegStep.v; making
+   such blocks atomic does not change the first result of the whole search: Proofs/ArrowA.v):
+   whatever the stack bound, the backtrack limit and the step budget, the VM reports a match only
+   with exactly the capture vector of the reference search (span = slots 0,1), reports "no match"
+   only when the reference has none, and never reaches a panic site.
+   Hypotheses: [oke true] (see the header) and [refs_ok]: every group a back-reference or a
+   (?(N)..) test reads is in the analyzer's back-reference set bs - the parser's bookkeeping
+   (parse.rs records each back-reference it creates), needed because the analysis hands a group
+   to the automata engine only when no back-reference reads it. *)
+Theorem C01_vm_follows_reference_all :
+  forall cs : list (list nat), valid_chars cs ->
+  forall cx : ctx, c_text cx = concat cs -> (N.of_nat (length (concat cs)) < usize_max)%N ->
+  bnd cs (c_pos cx) ->
+  forall (bs : N -> bool) (e : expr) (p : prog),
+  compile bs (wrap e) = inr p -> oke true 0 (wrap e) ->
+  refs_ok True (refd bs) (wrap e) ->
+  forall (max_st : nat) (lim : option N) (fuelv : nat),
+  match fst (vm_run cx p max_st lim fuelv) with
+  | RMatch sv => search_list cx e (S (length (c_text cx))) = Some (firstn (2 * S (ngroups e)) sv)
+  | RNoMatch => search_list cx e (S (length (c_text cx))) = None
+  | RPanic => False
+  | _ => True
+  end.
+Proof. exact vm_agrees_with_reference_all. Qed.
+
+(* arrow A on its own: a statement about the reference semantics only *)
+Check arrowA.
 
 (* EVERY compiled program, whatever it hands to the automata engine: the VM reports exactly the
    reference search over the ATOMIZED tree (Proofs/Atomize.v: each delegated block wrapped in an
@@ -88,6 +119,23 @@ Theorem C01_in_scope :
   | _ => True
   end.
 Proof. exact vm_agrees_in_scope. Qed.
+
+
+(* ... and the general statement with its hypotheses as an executable test ([in_scope_all]) *)
+Theorem C01_in_scope_all :
+  forall cs : list (list nat), valid_chars cs ->
+  forall cx : ctx, c_text cx = concat cs -> (N.of_nat (length (concat cs)) < usize_max)%N ->
+  bnd cs (c_pos cx) ->
+  forall (bs : N -> bool) (e : expr), in_scope_all bs e = true ->
+  exists p, compile bs (wrap e) = inr p /\
+  forall max_st lim fuelv,
+  match fst (vm_run cx p max_st lim fuelv) with
+  | RMatch sv => search_list cx e (S (length (c_text cx))) = Some (firstn (2 * S (ngroups e)) sv)
+  | RNoMatch => search_list cx e (S (length (c_text cx))) = None
+  | RPanic => False
+  | _ => True
+  end.
+Proof. exact vm_agrees_in_scope_all. Qed.
 
 (* the reference the checks evaluate (the first-success continuation-passing [search], which the
    extracted model runs against the real crate) is the reference of the theorem *)
@@ -138,8 +186,35 @@ Example ex3_runs :
              firstn 2 sv = [V 1; V 2].
 Proof. eexists; split; vm_compute; reflexivity. Qed.
 
+
+(* non-vacuity of the general statement: (?>(?=a)(a|ab)b) over "abb" - the program delegates the
+   NON-deterministic block (a|ab)b, capture group included, outside the scope of stage 1 *)
+Definition ex4_e : expr :=
+  AtomicGroup (Concat [LookAround (Literal [97] false) LookAhead;
+          Group (Alt [Literal [97] false; Concat [Literal [97] false; Literal [98] false]]);
+          Literal [98] false]).
+Definition ex4_p : prog :=
+  match compile (fun _ => false) (wrap ex4_e) with inr p => p | inl _ => {| p_body := []; p_nsaves := 0 |} end.
+Example ex4_hyps :
+  compile (fun _ => false) (wrap ex4_e) = inr ex4_p /\ oke true 0 (wrap ex4_e) /\
+  refs_ok True (refd (fun _ => false)) (wrap ex4_e) /\
+  forallb okinsn (p_body ex4_p) = false /\
+  existsb (fun i => match i with IDelegate _ _ _ => true | _ => false end) (p_body ex4_p) = true.
+Proof.
+  split; [reflexivity|]. split; [|split; [|split; reflexivity]].
+  - unfold oke. cbn. repeat split; auto; try lia; try reflexivity; try discriminate.
+  - cbn. repeat split; auto.
+Qed.
+Example ex4_runs :
+  exists sv, fst (vm_run {| c_text := [97; 98; 98]; c_pos := 0; c_skipped := false |} ex4_p 100 (Some 1000%N) 1000) = RMatch sv /\
+             firstn 4 sv = [V 0; V 2; V 0; V 1].
+Proof. eexists; split; vm_compute; reflexivity. Qed.
+
+Print Assumptions C01_vm_follows_reference_all.
+Print Assumptions arrowA.
 Print Assumptions C01_vm_follows_reference.
 Print Assumptions seg_all.
 Print Assumptions C01_reference_forms_agree.
 Print Assumptions C01_in_scope.
+Print Assumptions C01_in_scope_all.
 Print Assumptions C01_vm_implements_atomized.
